@@ -92,6 +92,8 @@ def _impl_one(op):
     if kind == "E2O":
         _, mode, tname, cc, enc, data = op
         return canon.impl_e2o(mode, tname, cc, enc, data)
+    if kind == "RCD":
+        return canon.impl_rc_details(op[1])
     if kind == "E2OS":
         return canon.impl_e2os(op[1], op[2])
     if kind == "SEQ":
@@ -128,6 +130,8 @@ def op_line(op):
         return "PRINT" + canon.dec_op(*op[1:])[3:]
     if op[0] == "E2O":
         return "E2O" + canon.dec_op(*op[1:])[3:]
+    if op[0] == "RCD":
+        return f"RCD {op[1]}"
     if op[0] == "E2OS":
         return f"E2OS {op[1]} {op[2].hex() or '-'}"
     if op[0] == "DECU":
